@@ -18,6 +18,12 @@ CHECKS = {
         text='Every forest of <=2 trees with <=6 (thorough 7) nodes over two leaf texts, every antichain of <=2 (3) id-keyed positions with 7 replacement kinds (deletion, fresh/existing leaf, compound terms, own child, BinaryReduction tuple), every structural key from {a,(a),(a b)} with replacements that contain the key once or twice, id+structural and double structural combinations, all ordered pairs of pending id-keyed simplifications, and declaration insertion over all command sequences of length <=3 are run through the real mutator_utils.apply_simp / nodes.substitute / smtlib.introduce_variables (1.5 M cases quick) and compared with an independent recursive model; untouched subtrees must be the identical objects, the base must be unchanged, and each call must stay within a deterministic count budget (catches re-entering a replacement).',
         note='Trusted: the nested-list model in ddv/checks/c11.py. Id replacements that contain or equal a structural key are not generated (statement ambiguous); tuple replacements only alone (as BinaryReduction uses them).',
         design='3/C11'),
+    'C12': dict(
+        level='exploration', engine='ENUM',
+        technique='bounded-exhaustive enumeration of trees, DAG sharing patterns and tree pairs against a nested-list model; real fork-pool round trip; exhaustive interleaving exploration of id allocation under a baton scheduler',
+        text='All trees with <=5 (thorough 6) nodes over 7 leaf texts (ASCII, empty, accented, non-BMP, and the pickle marker bytes "(" and "L"), all ordered pairs of trees <=4 (5) nodes, all forests <=5 nodes and every sharing pattern of trees <=6 (7) nodes are pushed through ==, hash, comparison with str/None/(), copy.deepcopy, pickle, dfs/bfs/filter_nodes with every max_depth and the counters, and compared with an independent nested-list model; every tree <=4 nodes goes to the workers of a real fork-based Pool(2) and back while parent and workers keep allocating ids (ids and hashes per position must agree, worker-created ids must not clash); all interleavings of 2x2 allocations of the real Node.__get_id over an instrumented lock/counter are executed under a baton scheduler (55 k schedules) and must hand out distinct ids.',
+        note='Trusted: nested-list models in ddv/checks/c12.py; leaf texts are 7 representatives, not all of Unicode; fork start method and one PYTHONHASHSEED for parent and workers.',
+        design='3/C12'),
     'C08': dict(
         level='exploration', engine='ENUM',
         technique='bounded-exhaustive enumeration of lexeme sequences x separators x nesting against an independent reference reader',
